@@ -88,6 +88,30 @@ def matchPredicate (decls : List Predicate) (name : String) (args : List Param) 
   | [p] => some p
   | _ => none
 
+/-- `for … { l.selectList = append(…, SelectList{child.Entity().GetText(), child.Alias().GetText()}) }` -/
+def selectItems : List PT → Outcome (List SelectItem)
+  | [] => .ok []
+  | it :: rest =>
+      match it.child? "entity", it.child? "alias" with
+      | some e, some a =>
+          match selectItems rest with
+          | .ok xs => .ok ({ entity := e.text, alias := a.text } :: xs)
+          | .diag m => .diag m
+          | .panic m => .panic m
+      | _, _ => .panic "nil dereference: select_item.Entity()/Alias()"
+
+/-- `for _, paramCtx := range ctx.Parameter_list().AllParameter() { … }` -/
+def declParams : List PT → Outcome (List Param)
+  | [] => .ok []
+  | q :: rest =>
+      match q.child? "type", firstLeaf? q "IDENTIFIER" with
+      | some ty, some id =>
+          match declParams rest with
+          | .ok xs => .ok ({ name := id.text, type := ty.text } :: xs)
+          | .diag m => .diag m
+          | .panic m => .panic m
+      | _, _ => .panic "nil dereference: parameter.Type_()/IDENTIFIER()"
+
 def enterRule (p : PT) (s : LState) : Outcome LState :=
   match p with
   | .leaf _ => .ok s
@@ -103,31 +127,34 @@ def enterRule (p : PT) (s : LState) : Outcome LState :=
                     else if c.isTok "STRING" then "string" else ""
         | [] => ""
       .ok { s with selectOutput := s.selectOutput ++ [{ text := p.text, ty := ty }] }
-    else if rule = "select_list" then do
-      let items ← (p.childrenOf "select_item").mapM (fun it => do
-        let e ← need (it.child? "entity") "select_item.Entity()"
-        let a ← need (it.child? "alias") "select_item.Alias()"
-        pure ({ entity := e.text, alias := a.text } : SelectItem))
-      .ok { s with selectList := s.selectList ++ items }
-    else if rule = "predicate_invocation" then do
-      let n ← need (p.child? "predicate_name") "predicate_invocation.Predicate_name()"
-      let params := match p.child? "argument_list" with
-        | some a => a.text
-        | none => ""
-      let parts := (Str.splitChar ',' params.toList).map String.ofList
-      let args := extractArguments s.selectList parts
-      let m := (matchPredicate s.predicates n.text args).getD default
-      .ok { s with invocations := s.invocations ++ [{ name := n.text, args := args, matched := m }] }
-    else if rule = "predicate_declaration" then do
-      let n ← need (p.child? "predicate_name") "predicate_declaration.Predicate_name()"
-      let params ← match p.child? "parameter_list" with
-        | none => pure []
-        | some pl => (pl.childrenOf "parameter").mapM (fun q => do
-            let ty ← need (q.child? "type") "parameter.Type_()"
-            let id ← need (firstLeaf? q "IDENTIFIER") "parameter.IDENTIFIER()"
-            pure ({ name := id.text, type := ty.text } : Param))
-      let body ← need (p.child? "expression") "predicate_declaration.Expression()"
-      .ok { s with inDecl := true, predicates := s.predicates ++ [{ name := n.text, params := params, body := body.text }] }
+    else if rule = "select_list" then
+      match selectItems (p.childrenOf "select_item") with
+      | .ok items => .ok { s with selectList := s.selectList ++ items }
+      | .diag m => .diag m
+      | .panic m => .panic m
+    else if rule = "predicate_invocation" then
+      match p.child? "predicate_name" with
+      | none => .panic "nil dereference: predicate_invocation.Predicate_name()"
+      | some n =>
+        let params := match p.child? "argument_list" with
+          | some a => a.text
+          | none => ""
+        let parts := (Str.splitChar ',' params.toList).map String.ofList
+        let args := extractArguments s.selectList parts
+        let m := (matchPredicate s.predicates n.text args).getD default
+        .ok { s with invocations := s.invocations ++ [{ name := n.text, args := args, matched := m }] }
+    else if rule = "predicate_declaration" then
+      match p.child? "predicate_name", p.child? "expression" with
+      | some n, some body =>
+          let ps : Outcome (List Param) := match p.child? "parameter_list" with
+            | none => .ok []
+            | some pl => declParams (pl.childrenOf "parameter")
+          match ps with
+          | .ok params =>
+              .ok { s with inDecl := true, predicates := s.predicates ++ [{ name := n.text, params := params, body := body.text }] }
+          | .diag m => .diag m
+          | .panic m => .panic m
+      | _, _ => .panic "nil dereference: predicate_declaration.Predicate_name()/Expression()"
     else if rule = "equalityExpression" ∨ rule = "relationalExpression" then
       if cs.length > 1 ∧ ¬ s.inDecl then .ok { s with condition := s.condition ++ [p.text] } else .ok s
     else .ok s
@@ -139,24 +166,33 @@ def exitRule (p : PT) (s : LState) : LState :=
 mutual
 def walk : PT → LState → Outcome LState
   | .leaf _, s => .ok s
-  | .node r cs, s => do
-      let s1 ← enterRule (.node r cs) s
-      let s2 ← walkList cs s1
-      pure (exitRule (.node r cs) s2)
+  | .node r cs, s =>
+      match enterRule (.node r cs) s with
+      | .ok s1 =>
+          match walkList cs s1 with
+          | .ok s2 => .ok (exitRule (.node r cs) s2)
+          | .diag m => .diag m
+          | .panic m => .panic m
+      | .diag m => .diag m
+      | .panic m => .panic m
 def walkList : List PT → LState → Outcome LState
   | [], s => .ok s
-  | c :: cs, s => do
-      let s1 ← walk c s
-      walkList cs s1
+  | c :: cs, s =>
+      match walk c s with
+      | .ok s1 => walkList cs s1
+      | .diag m => .diag m
+      | .panic m => .panic m
 end
 
 /-- `parser.ParseQuery` on a token list: syntax errors are diagnostics. -/
 def parseQueryTokens (g : Grammar) (start : String) (ts : List Token) : Outcome ParsedQuery :=
   match (parsesOf g (fuelFor ts) start ts).head? with
   | none => .diag "syntax error"
-  | some tree => do
-      let s ← walk tree {}
-      pure s.toParsedQuery
+  | some tree =>
+      match walk tree {} with
+      | .ok s => .ok s.toParsedQuery
+      | .diag m => .diag m
+      | .panic m => .panic m
 
 /-- `parser.ParseQuery` on characters (lexer errors are syntax errors). -/
 def parseQuery (rules : List LexRule) (g : Grammar) (start : String) (cs : List Char) : Outcome ParsedQuery :=
